@@ -353,6 +353,29 @@ func runC01(ctx *core.Ctx) {
 			cases = append(cases, smCase{Routine: "MultiScalarMult", K: kh, Q: q, Recv: (qi + len(cases)) % 4})
 		}
 	}
+	// pairs of adjacent nibbles at every position (carry chains, digit pairs)
+	var pairW []*big.Int
+	for pos := 0; pos < 62; pos++ {
+		for ab := 0; ab < 256; ab++ {
+			if smoke(ctx) && (pos%7 != 0 || ab%5 != 0) {
+				continue
+			}
+			k := new(big.Int).Lsh(big.NewInt(int64(ab)), uint(4*pos))
+			if k.Cmp(ref.L) < 0 {
+				pairW = append(pairW, k)
+			}
+		}
+	}
+	for i, k := range pairW {
+		kh := le32(k)
+		q := qs[i%len(qs)]
+		cases = append(cases, smCase{Routine: "ScalarMult", K: kh, Q: q, Recv: i % 4})
+		cases = append(cases, smCase{Routine: "ScalarBaseMult", K: kh, Q: qs[0], Recv: i % 3})
+		if i%4 == 0 {
+			cases = append(cases, smCase{Routine: "MultiScalarMult", K: kh, Q: q, Recv: i % 4})
+		}
+	}
+	ctx.Extra("radix16_adjacent_nibble_pair_witnesses", len(pairW))
 	ctx.AddTraces(int64(len(wit16)))
 	// NAF witnesses
 	var pos5, pos8 []int
